@@ -61,6 +61,11 @@ def preamble(gnames):
 PAR_KEYS = ["cn_max", "cn_diff", "cn_fit", "cn_pce_penalty", "cn_parsimony", "cn_fusion_left", "cn_fusion_right", "gap"]
 
 
+def fus_q(v):
+    """fusion support of a solve case: a short decimal, or an exact fraction 'a/b' (derived from an estimate case)"""
+    return F(v) if isinstance(v, str) else F(repr(float(v)))
+
+
 def c_params(par):
     return "(mkp " + " ".join(cq(F(repr(par[k]))) for k in PAR_KEYS) + ")"
 
@@ -69,7 +74,7 @@ def c_inst(case):
     gn = case["gene"]
     g = gene(gn)
     cov = clist(case["cov"], lambda rc: cpair(cstr(rc[0]), cpair(cqf(rc[1]), cqf(rc[2]))))
-    fus = "None" if case["fusion"] is None else "(Some " + clist(case["fusion"], lambda kv: cpair(cstr(kv[0]), cqf(kv[1]))) + ")"
+    fus = "None" if case["fusion"] is None else "(Some " + clist(case["fusion"], lambda kv: cpair(cstr(kv[0]), cq(fus_q(kv[1])))) + ")"
     return (f"(mki G_{gn} {len(g.regions)} U_{gn} (pickl {clist(case['configs'], cstr)} G_{gn}) {cz(case['max_cn'])} {cov} {fus} "
             f"{c_params(case['par'])})")
 
@@ -96,7 +101,7 @@ def run_solve(case, record):
     prof = make_profile(case["par"])
     configs = {n: g.cn_configs[n] for n in case["configs"]}
     cov = {r: (a, b) for r, a, b in case["cov"]}
-    fus = None if case["fusion"] is None else dict(case["fusion"])
+    fus = None if case["fusion"] is None else {k: float(fus_q(v)) for k, v in case["fusion"]}
     snap = None
     try:
         if record:
@@ -119,7 +124,7 @@ def exact_forms(case):
     par = {k: F(repr(case["par"][k])) for k in PAR_KEYS}
     max_cn = case["max_cn"]
     dele = g.deletion_allele()
-    fus = None if case["fusion"] is None else {k: F(repr(v)) for k, v in case["fusion"]}
+    fus = None if case["fusion"] is None else {k: fus_q(v) for k, v in case["fusion"]}
     cfgs = {}
     for n in case["configs"]:
         if not fus or n == "1" or (dele and n == dele) or (n in fus and fus[n] >= F(1, 2 * max_cn)):
@@ -651,7 +656,10 @@ def est_as_solve_case(case):
     cov = [[r, rc[0, r], rc[1, r] if len(g.regions) > 1 else 0.0] for r in g.unique_regions]
     fus = None
     if case["fusion"]:
-        fus = [[n, (a / b) if b else 0.0] for n, a, b in case["fusion"]]
+        # the read-count ratio as an exact fraction "a/b": the code computes a / b in doubles and compares it with 1 / (2 * max_cn)
+        # in doubles - for small integers the same verdict as the exact comparison, which a decimal rendering of a / b is not
+        # (5/60 printed as 0.08333333333333333 is below 1/12)
+        fus = [[n, f"{a}/{b}" if b else 0.0] for n, a, b in case["fusion"]]
     return {"kind": "solve", "gene": case["gene"], "max_cn": mx, "cov": cov, "par": case["par"], "configs": configs, "fusion": fus}
 
 
